@@ -321,7 +321,7 @@ def parseAtMost (n : Nat) (s : String) : Option AtMost :=
 
 open Mesa.ASet in
 def fmtErr : Err → String
-  | .attr => "err Attr" | .key => "err Key" | .index => "err Index" | .value => "err Value"
+  | .attr => "err Attr" | .key => "err Key" | .index => "err Index" | .value => "err Value" | .type => "err Type"
 
 def fmtOptInt : Option Int → String
   | some v => toString v | none => "None"
